@@ -1,2 +1,222 @@
+"""C15 structural rules R2-R6: dispatch keyword set, GO_TOKENS vs. arms, field pairing, duplicate detection, move text."""
+import json
+from ..cfg import Cfg
+from ..expr import Exprs, PathEval, fold, Unfoldable, show, leaves, resolve_promoted
+from ..paths import returning_paths, NotLoopFree
+from .common import table
+
+P = "inkayaku_uci::uci::parser::CommandParser::"
+STR_EQ = "core::str::traits::<str as PartialEq<str>>::eq"
+
+
+def str_match_arms(f, cfg, ex, subject=None):
+    """[(keyword, eq block, arm head block)] for `match s { "kw" => .. }` lowered to str::eq + switch"""
+    out = []
+    for b in sorted(cfg.reach):
+        t = f["blocks"][b]["term"]
+        if t["k"] == "call" and t["callee"].get("key") == STR_EQ:
+            kw = [a.get("v") for a in t["args"] if a.get("k") == "const" and isinstance(a.get("v"), str)]
+            if len(kw) != 1:
+                continue
+            nb = t["target"]
+            sw = f["blocks"][nb]["term"]
+            if sw["k"] == "switch" and len(sw["targets"]) == 1:
+                out.append((kw[0], b, sw["otherwise"], sw["targets"][0][1]))
+    return out
+
+
+def arm_region(cfg, head, others):
+    return {x for x in cfg.reachable_from(head) if cfg.dominates(head, x)}
+
+
+def r2_dispatch(ctx):
+    rid = "C15.R2"
+    ctx.rule(rid, "the first token is compared with exactly the 11 UCI command words; each word leads to the command variant / sub-parser of the same name", floor=12)
+    spec = table("spec_uci.json")
+    f = ctx.fn(rid, P + "parse_root")
+    cfg, ex = Cfg(f), Exprs(f)
+    arms = str_match_arms(f, cfg, ex)
+    kws = [a[0] for a in arms]
+    ok = sorted(kws) == sorted(spec["gui_to_engine_commands"])
+    ctx.ob(rid, "keyword-set", ok, "" if ok else "dispatch keywords %s differ from the UCI command set (missing %s, extra %s)" % (sorted(kws), sorted(set(spec["gui_to_engine_commands"]) - set(kws)), sorted(set(kws) - set(spec["gui_to_engine_commands"]))),
+           ctx.where(f), sample={"keywords": sorted(kws)})
+    for kw, eqb, head, _ in arms:
+        region = arm_region(cfg, head, None)
+        acts = []
+        for x in sorted(region):
+            blk = f["blocks"][x]
+            for s in blk["stmts"]:
+                rv = s["rv"]
+                if rv["op"] == "agg" and rv["kind"] == "adt" and rv["adt"].endswith("::UciCommand"):
+                    acts.append(("variant", rv["variant"]))
+            t = blk["term"]
+            if t["k"] == "call" and (t["callee"].get("key") or "").startswith(P + "parse_"):
+                acts.append(("parser", t["callee"]["key"][len(P):]))
+        ok = len(acts) == 1 and ((acts[0][0] == "variant" and acts[0][1].lower() == kw) or (acts[0][0] == "parser" and acts[0][1] == "parse_" + kw))
+        ctx.ob(rid, "command|%s" % kw, ok, "" if ok else "the command word %r leads to %s (expected the variant / parse_ function named after it)" % (kw, acts), ctx.where(f, f["blocks"][eqb]["term"]["line"]),
+               sample={"keyword": kw, "action": acts})
+
+
+def r3_r4_r5_go(ctx):
+    spec = table("spec_uci.json")
+    prog = ctx.prog
+    ctx.rule("C15.R3", "GO_TOKENS equals the set of tokens matched in parse_go and the UCI go parameters; searchmoves stops at GO_TOKENS", floor=3)
+    ctx.rule("C15.R4", "each go token assigns the Go field the UCI specification pairs with it, through the parser of the right kind", floor=12)
+    ctx.rule("C15.R5", "duplicate detection precedes every arm and every accepted token is recorded before the next one is read", floor=2)
+    f = ctx.fn("C15.R3", P + "parse_go")
+    cfg, ex = Cfg(f), Exprs(f)
+    arms = str_match_arms(f, cfg, ex)
+    kws = [a[0] for a in arms]
+    gt = prog.const_value(P + "GO_TOKENS")
+    if not isinstance(gt, list):
+        ctx.lost("C15.R3", P + "GO_TOKENS")
+        return
+    ok = sorted(gt) == sorted(kws) and len(set(gt)) == len(gt)
+    ctx.ob("C15.R3", "GO_TOKENS=arms", ok, "" if ok else "GO_TOKENS %s vs. tokens matched in parse_go %s" % (sorted(gt), sorted(kws)), ctx.where(f), sample={"GO_TOKENS": gt})
+    ok = sorted(gt) == sorted(spec["go_tokens"])
+    ctx.ob("C15.R3", "GO_TOKENS=uci", ok, "" if ok else "GO_TOKENS %s vs. UCI go parameters %s" % (sorted(gt), sorted(spec["go_tokens"])), ctx.where(f))
+    go_local = None
+    for kw, eqb, head, _ in arms:
+        region = arm_region(cfg, head, None)
+        writes, helpers, stopset = [], [], None
+        for x in sorted(region):
+            blk = f["blocks"][x]
+            for s in blk["stmts"]:
+                d = s["dst"]
+                if d is not None and len(d["p"]) == 1 and isinstance(d["p"][0], dict) and (d["p"][0].get("of") or "").endswith("::Go"):
+                    writes.append(d["p"][0]["name"])
+                    go_local = d["l"]
+            t = blk["term"]
+            if t["k"] == "call":
+                k = t["callee"].get("key") or ""
+                if k.startswith(P + "parse_"):
+                    helpers.append(k[len(P):])
+                    if k.endswith("parse_moves_until_one_of_or_end"):
+                        a = resolve_promoted(prog, ex.operand(t["args"][1]))
+                        for y in leaves(a):
+                            if y[0] == "c" and y[3] and y[3].endswith("GO_TOKENS"):
+                                stopset = "GO_TOKENS"
+                            elif y[0] == "c" and isinstance(y[1], tuple) and stopset is None:
+                                stopset = list(y[1])
+                if t["dest"]["p"] and isinstance(t["dest"]["p"][0], dict) and (t["dest"]["p"][0].get("of") or "").endswith("::Go"):
+                    writes.append(t["dest"]["p"][0]["name"])
+        want_field = spec["go_fields"].get(kw)
+        kind = {"wtime": "parse_duration", "btime": "parse_duration", "winc": "parse_duration", "binc": "parse_duration", "movetime": "parse_duration",
+                "movestogo": "parse_u64", "depth": "parse_u64", "nodes": "parse_u64", "mate": "parse_u64", "searchmoves": "parse_moves_until_one_of_or_end"}.get(kw)
+        ok = sorted(set(writes)) == [want_field] and (helpers == [kind] if kind else not helpers)
+        ctx.ob("C15.R4", "go|%s" % kw, ok, "" if ok else "go token %r writes field(s) %s via %s (expected field %s via %s)" % (kw, sorted(set(writes)), helpers, want_field, kind or "a constant"),
+               ctx.where(f, f["blocks"][eqb]["term"]["line"]), sample={"token": kw, "field": sorted(set(writes)), "parser": helpers})
+        if kw == "searchmoves":
+            ok = stopset == "GO_TOKENS" or (isinstance(stopset, list) and sorted(stopset) == sorted(gt))
+            ctx.ob("C15.R3", "searchmoves-stops-at-GO_TOKENS", ok, "" if ok else "searchmoves reads moves until %s" % (stopset,), ctx.where(f, f["blocks"][eqb]["term"]["line"]))
+    # R5
+    contains = [b for b in sorted(cfg.reach) if f["blocks"][b]["term"]["k"] == "call" and (f["blocks"][b]["term"]["callee"].get("key") or "").endswith("HashSet::contains")]
+    inserts = [b for b in sorted(cfg.reach) if f["blocks"][b]["term"]["k"] == "call" and (f["blocks"][b]["term"]["callee"].get("key") or "").endswith("HashSet::insert")]
+    nexts = [b for b in sorted(cfg.reach) if f["blocks"][b]["term"]["k"] == "call" and f["blocks"][b]["term"]["callee"].get("key") == P + "next"]
+    if len(contains) != 1 or len(inserts) != 1 or len(nexts) != 1:
+        ctx.lost("C15.R5", "one HashSet::contains, one insert and one next() in parse_go (found %d/%d/%d)" % (len(contains), len(inserts), len(nexts)))
+        return
+    cb, ib, nb = contains[0], inserts[0], nexts[0]
+    ok = all(cfg.dominates(cb, eqb) for _, eqb, _, _ in arms)
+    # and the duplicate branch (contains == true) returns an error without reaching an arm
+    csw = f["blocks"][f["blocks"][cb]["term"]["target"]]["term"]
+    dup_arm = csw["otherwise"] if csw["k"] == "switch" else None
+    ok = ok and dup_arm is not None and not any(eqb in cfg.reachable_from(dup_arm) - {x for x in cfg.reachable_from(nb)} for _, eqb, _, _ in arms) and nb not in cfg.reachable_from(dup_arm)
+    ctx.ob("C15.R5", "duplicate-test-before-every-arm", ok, "" if ok else "the duplicate test does not dominate every token arm, or its positive branch continues parsing", ctx.where(f, f["blocks"][cb]["term"]["line"]))
+    bad = [kw for kw, eqb, head, _ in arms if nb in cfg.reachable_from(head, avoid={ib})]
+    ctx.ob("C15.R5", "accepted-token-recorded", not bad, "" if not bad else "after accepting %s the next token can be read without recording the token as visited (a repeated parameter would be accepted)" % bad, ctx.where(f, f["blocks"][ib]["term"]["line"]))
+    # the token recorded and tested is the token matched
+    t_c, t_i = f["blocks"][cb]["term"], f["blocks"][ib]["term"]
+    a_c, a_i = ex.operand(t_c["args"][1]), ex.operand(t_i["args"][1])
+    def base(t):
+        while t[0] in ("&", "*"):
+            t = t[1]
+        return t
+    ok = base(a_c) == base(a_i)
+    ctx.ob("C15.R5", "same-token-tested-and-recorded", ok, "" if ok else "contains(%s) but insert(%s)" % (show(a_c), show(a_i)), ctx.where(f))
+
+
+def r6_move_text(ctx):
+    rid = "C15.R6"
+    ctx.rule(rid, "Piece::from_char(p.fen) == p for all six pieces; UciMove's Display writes source, target, promotion in the order FromStr reads them", floor=7)
+    prog = ctx.prog
+    f = ctx.fn(rid, "inkayaku_core::constants::piece::Piece::from_char")
+    try:
+        pes = returning_paths(f)
+    except NotLoopFree:
+        ctx.lost(rid, "Piece::from_char has a loop")
+        return
+    pieces = {k.rsplit("::", 1)[-1]: c["value"] for k, c in prog.consts.items() if k.startswith("inkayaku_core::constants::piece::Piece::") and isinstance(c["value"], dict) and "fen" in c["value"]}
+    if len(pieces) != 6:
+        ctx.lost(rid, "six Piece constants (found %d)" % len(pieces))
+        return
+    for name, val in sorted(pieces.items()):
+        for ch in (val["fen"], val["fen"].upper()):
+            env = {("param", 1): ord(ch)}
+            res = None
+            for pe in pes:
+                good = True
+                for (d, c, b, ty) in pe.conds:
+                    try:
+                        v = fold(d, env)
+                    except Unfoldable:
+                        good = False
+                        break
+                    if (v in c[1]) != (c[0] == "in"):
+                        good = False
+                        break
+                if good:
+                    res = pe.ret()
+            got = None
+            if res is not None and res[0] == "agg" and res[2].endswith("Option::Some") and res[3] and res[3][0][0] == "c":
+                v = res[3][0][1]
+                if isinstance(v, tuple) and v and v[0] == "json":
+                    got = json.loads(v[1])
+            ok = got == val
+            ctx.ob(rid, "from_char(%r)" % ch, ok, "" if ok else "Piece::from_char(%r) yields %s, expected %s" % (ch, got, name), ctx.where(f), sample={"char": ch, "piece": got["name"] if got else None} if ch == "q" else None)
+    # Display order
+    g = ctx.fn(rid, "inkayaku_uci::uci::<UciMove as Display>::fmt")
+    cfg, ex = Cfg(g), Exprs(g)
+    order = []
+    for b in sorted(cfg.reach):
+        t = g["blocks"][b]["term"]
+        if t["k"] == "call" and (t["callee"].get("key") or "").startswith("core::fmt::rt::Argument::new_display"):
+            a = ex.operand(t["args"][0])
+            names = [x[2] for x in leaves(a) if x[0] == "f" and x[2] in ("source", "target", "promote_to")]
+            order.append((t["dest"]["l"], names[0] if names else "?"))
+    # the argument array fixes the order
+    arr = None
+    for b in sorted(cfg.reach):
+        for s in g["blocks"][b]["stmts"]:
+            if s["rv"]["op"] == "agg" and s["rv"]["kind"] == "array" and len(s["rv"]["a"]) == 3:
+                arr = [a["pl"]["l"] if a.get("k") in ("copy", "move") else None for a in s["rv"]["a"]]
+    seq = [dict(order).get(l, "?") for l in arr] if arr else []
+    ok = seq == ["source", "target", "promote_to"]
+    ctx.ob(rid, "display-order", ok, "" if ok else "UciMove is written as %s, FromStr reads source, target, promotion" % seq, ctx.where(g), sample={"written": seq})
+    h = ctx.fn(rid, "inkayaku_uci::uci::<UciMove as FromStr>::from_str")
+    hcfg, hex_ = Cfg(h), Exprs(h)
+    # the Ok aggregate's fields come from the first / second Square::from_chars call and from Piece::from_char
+    sq_calls = [b for b in sorted(hcfg.reach) if h["blocks"][b]["term"]["k"] == "call" and (h["blocks"][b]["term"]["callee"].get("key") or "").endswith("Square::from_chars")]
+    ok = len(sq_calls) == 2 and hcfg.dominates(sq_calls[0], sq_calls[1])
+    agg = None
+    for b in sorted(hcfg.reach):
+        for s in h["blocks"][b]["stmts"]:
+            if s["rv"]["op"] == "agg" and s["rv"]["kind"] == "adt" and s["rv"]["adt"].endswith("::UciMove"):
+                agg = (s["rv"], b)
+    if agg and ok:
+        from ..slice import Slicer
+        sl = Slicer(h)
+        fields = agg[0]["fields"]
+        src = {}
+        for name, a in zip(fields, agg[0]["a"]):
+            if a.get("k") in ("copy", "move"):
+                _, calls = sl.data_backward({a["pl"]["l"]})
+                src[name] = [cb for cb, t in calls if cb in sq_calls]
+        ok = src.get("source") == [sq_calls[0]] and src.get("target") == [sq_calls[1]]
+    ctx.ob(rid, "from_str-order", bool(ok), "" if ok else "UciMove::from_str does not take source from the first and target from the second pair of characters", ctx.where(h))
+
+
 def run(ctx):
-    pass
+    r2_dispatch(ctx)
+    r3_r4_r5_go(ctx)
+    r6_move_text(ctx)
